@@ -83,8 +83,8 @@ func hessPart(s *S, ilo, ihi int) M {
 }
 
 func genDgehrd(g *vlib.G) {
-	lim := vlib.Pick(g, 6, 10)
-	profs := profSet(g.Thorough(), 5)
+	lim := p3(g, 6, 8, 11)
+	profs := profSet(g, 5)
 	type cfg struct {
 		n, ilo, ihi int
 		p           prof
@@ -108,8 +108,11 @@ func genDgehrd(g *vlib.G) {
 		}
 	}
 	stock := [][3]int{{1, 0, 0}, {2, 0, 1}, {5, 0, 4}, {5, 1, 3}, {33, 0, 32}, {40, 2, 37}}
-	if g.Thorough() {
-		stock = append(stock, [3]int{129, 0, 128}, [3]int{140, 3, 135}, [3]int{200, 0, 199})
+	if lvl(g) >= 1 {
+		stock = append(stock, [3]int{129, 0, 128}, [3]int{140, 3, 135})
+	}
+	if lvl(g) >= 2 {
+		stock = append(stock, [3]int{200, 0, 199}, [3]int{300, 5, 290})
 	}
 	for _, s := range stock {
 		plan = append(plan, cfg{s[0], s[1], s[2], stockProf, []family{nsFamilies[0], nsFamilies[6]}})
@@ -363,8 +366,8 @@ func genDhseqr(g *vlib.G) {
 		fams []family
 	}
 	var plan []cfg
-	lim := vlib.Pick(g, 6, 10)
-	profs := profSet(g.Thorough(), 5)
+	lim := p3(g, 6, 8, 11)
+	profs := profSet(g, 5)
 	for n := 0; n <= lim; n++ {
 		for _, p := range profs {
 			plan = append(plan, cfg{n, p, nsFamilies})
@@ -373,8 +376,11 @@ func genDhseqr(g *vlib.G) {
 	// above the hard floor of the Dlahqr/Dlaqr04 crossover
 	big := []int{16, 19, 24}
 	bigFams := []family{nsFamilies[0], nsFamilies[1], nsFamilies[4], nsFamilies[6], nsFamilies[10], nsFamilies[11]}
-	if g.Thorough() {
+	if lvl(g) >= 1 {
 		big = vlib.Ints(16, 24)
+	}
+	if lvl(g) >= 2 {
+		big = append(big, 28, 33, 40)
 		bigFams = nsFamilies[:13]
 	}
 	for _, n := range big {
@@ -383,12 +389,15 @@ func genDhseqr(g *vlib.G) {
 		}
 	}
 	stock := []int{1, 2, 5, 31, 32, 33}
-	if g.Thorough() {
-		stock = append(stock, 74, 75, 76, 100)
+	if lvl(g) >= 1 {
+		stock = append(stock, 74, 75, 76) // the stock Dlahqr/Dlaqr04 crossover (nmin = 75)
 		deep := prof{name: "deep", nb: 4, nbmin: 2, nx: 0, nmin: 2, nwr: 17, nibble: 14, nsr: 16, kacc: 2}
-		for _, n := range []int{50, 64, 100} {
+		for _, n := range p3(g, nil, []int{50}, []int{50, 64, 100}) {
 			plan = append(plan, cfg{n, deep, []family{nsFamilies[0], nsFamilies[6], nsFamilies[10]}})
 		}
+	}
+	if lvl(g) >= 2 {
+		stock = append(stock, 100, 150)
 	}
 	for _, n := range stock {
 		plan = append(plan, cfg{n, stockProf, []family{nsFamilies[0], nsFamilies[4], nsFamilies[6], nsFamilies[10], nsFamilies[11]}})
@@ -556,8 +565,8 @@ func genDgeev(g *vlib.G) {
 		fams []family
 	}
 	var plan []cfg
-	lim := vlib.Pick(g, 6, 10)
-	profs := profSet(g.Thorough(), 5)
+	lim := p3(g, 6, 8, 11)
+	profs := profSet(g, 5)
 	for n := 0; n <= lim; n++ {
 		for _, p := range profs {
 			plan = append(plan, cfg{n, p, nsFamilies})
@@ -565,8 +574,11 @@ func genDgeev(g *vlib.G) {
 	}
 	big := []int{16, 21}
 	bigFams := []family{nsFamilies[0], nsFamilies[4], nsFamilies[6], nsFamilies[10], nsFamilies[11]}
-	if g.Thorough() {
+	if lvl(g) >= 1 {
 		big = vlib.Ints(16, 24)
+	}
+	if lvl(g) >= 2 {
+		big = append(big, 28, 33, 40)
 		bigFams = nsFamilies[:13]
 	}
 	for _, n := range big {
@@ -575,8 +587,11 @@ func genDgeev(g *vlib.G) {
 		}
 	}
 	stock := []int{1, 2, 5, 31, 32, 33}
-	if g.Thorough() {
-		stock = append(stock, 74, 75, 76, 100)
+	if lvl(g) >= 1 {
+		stock = append(stock, 74, 75, 76)
+	}
+	if lvl(g) >= 2 {
+		stock = append(stock, 100, 150)
 	}
 	for _, n := range stock {
 		plan = append(plan, cfg{n, stockProf, []family{nsFamilies[0], nsFamilies[1], nsFamilies[4], nsFamilies[6], nsFamilies[10], nsFamilies[11], nsFamilies[13]}})
@@ -584,8 +599,8 @@ func genDgeev(g *vlib.G) {
 	for _, c := range plan {
 		for _, f := range c.fams {
 			lds := [][3]int{{0, 0, 0}, {2, 1, 3}} // (lda, ldvl, ldvr) paddings, all different
-			if g.Thorough() {
-				lds = append(lds, [3]int{2, 2, 2}, [3]int{0, 2, 0})
+			if lvl(g) >= 1 && c.n <= 40 {
+				lds = append(lds, [3]int{2, 2, 2}, [3]int{0, 2, 0}, [3]int{1, 0, 2})
 			}
 			for _, ld := range lds {
 				for _, lw := range []string{"min", "query", "big"} {
